@@ -239,6 +239,34 @@ def v_attrs_dict():
     return _shared["attrs"], {}
 
 
+def v_port_value():
+    """a sub-entity whose architecture reads the compile-time value of one of its ports (initial value of a signal): the port
+    object belongs to the entity CLASS; connecting an instance must not leave the actual's value in it for the next compilation"""
+    if "port_value" not in _shared:
+        class PvInner(Entity):
+            a = Port.input(BitVector[4])
+            o = Port.output(BitVector[4])
+
+            def architecture(self):
+                s = Signal[BitVector[4]](self.a, name="s")
+
+                @std.concurrent
+                def logic():
+                    s.next = self.a
+                    self.o <<= s
+
+        class PvTop(Entity):
+            a = Port.input(BitVector[4])
+            o = Port.output(BitVector[4])
+
+            def architecture(self):
+                k = Signal[BitVector[4]]("1010", name="k")
+                PvInner(a=k, o=self.o)
+
+        _shared["port_value"] = PvTop
+    return _shared["port_value"], {}
+
+
 def v_context_probe():
     """asks for the sequential context it is compiled in: none, whatever was compiled (or rejected) before"""
     class ContextProbe(Entity):
@@ -391,7 +419,7 @@ def r_drivers():
     return BadDrv, {}
 
 
-VALID = ["v_comb", "v_coroutine", "v_prefix", "v_named", "v_reserved", "v_hier", "v_open_entity", "v_commented", "v_base_port", "v_derived_inst", "v_aliased_signal", "v_global_one", "v_global_two", "v_attrs_dict", "v_context_probe"]
+VALID = ["v_comb", "v_coroutine", "v_prefix", "v_named", "v_reserved", "v_hier", "v_open_entity", "v_commented", "v_base_port", "v_derived_inst", "v_aliased_signal", "v_global_one", "v_global_two", "v_attrs_dict", "v_context_probe", "v_port_value"]
 REJECTED = ["r_statemachine", "r_context", "r_prefix", "r_architecture", "r_drivers", "r_seqctx"]
 _cache = {}
 
